@@ -258,21 +258,27 @@ theorem lookup_cwd_irrelevant (pe pe' : String → Bool) (uf : String → Option
   cases system <;> rfl
 
 /-- … a path to a relations file given in place of a system name is used as the relations … -/
-theorem user_file_used (env : Env) (sys : String) (rows : Rows) (h : env.userFile sys = some rows)
-    (P : Params α) (t : Table α) :
+theorem user_file_used (env : Env) (sys : String) (rows : Rows) (e : Err) (hp : packaged sys = .error e)
+    (h : env.userFile sys = some rows) (P : Params α) (t : Table α) :
     fill env (some sys) P t =
       match recognise (t.map (·.1)) with
       | .error e => .error e
       | .ok sel => fillWith rows sel P t := by
-  simp only [fill, resolve_user_file env sys rows h]
+  simp only [fill, resolve_user_file env sys rows e hp h]
   cases recognise (t.map (·.1)) <;> rfl
+
+/-- … and for a PACKAGED system name nothing in the working directory matters at all — neither `Path.exists` nor a
+regular file of that name (fix 6f0d09b; the C14 finding `cwd:regular-file-named-like-system`) -/
+theorem lookup_env_irrelevant_packaged (env env' : Env) (sys : String) (rows : Rows) (hp : packaged sys = .ok rows)
+    (P : Params α) (t : Table α) : fill env (some sys) P t = fill env' (some sys) P t := by
+  simp only [fill, resolve_packaged env sys rows hp, resolve_packaged env' sys rows hp]
 
 /-- … and a user-written file equivalent to the packaged one gives the same outcome as the system name -/
 theorem user_file_equivalent (pe pe' : String → Bool) (uf : String → Option Rows) (name path : String) (rows : Rows)
-    (hname : uf name = none) (hpk : packaged name = .ok rows) (hfile : uf path = some rows)
+    (e : Err) (hpath : packaged path = .error e) (hpk : packaged name = .ok rows) (hfile : uf path = some rows)
     (P : Params α) (t : Table α) :
     fill ⟨pe, uf⟩ (some path) P t = fill ⟨pe', uf⟩ (some name) P t := by
-  simp only [fill, resolve_user_file ⟨pe, uf⟩ path rows hfile, resolve_packaged ⟨pe', uf⟩ name hname, hpk]
+  simp only [fill, resolve_user_file ⟨pe, uf⟩ path rows e hpath hfile, resolve_packaged ⟨pe', uf⟩ name rows hpk]
 
 end field
 
